@@ -183,6 +183,9 @@ func (x *Exec) nameCell(st *State, p *Pointer, term string, bound map[string]boo
 			}
 		}
 	}
+	if strings.Contains(term, " q_") || strings.Contains(term, "(q_") || strings.Contains(term, " qi_") {
+		return term // mentions some quantified variable
+	}
 	hh := fnv.New64a()
 	hh.Write([]byte(term))
 	name := fmt.Sprintf("cell_%x", hh.Sum64())
@@ -193,20 +196,55 @@ func (x *Exec) nameCell(st *State, p *Pointer, term string, bound map[string]boo
 	return name
 }
 
-// encCell: the object a possibly interior-encoded pointer designates.
+// encCell: the object a possibly interior-encoded pointer designates. The case split over interior
+// sites lives in an axiomatised function deref_<T>(heaps..., p), so that the term can be used in
+// quantifier patterns and formulas stay small.
 func (x *Exec) encCell(p *Pointer, heapOf func(key, sort string) string) string {
 	ss := x.P.ss
-	h := heapOf(p.Heap, ss.heapSort(p.Elem, false))
-	term := sx("select", h, p.Root)
-	neg := sx("-", "0", p.Root)
-	for _, s := range x.sitesFor(p.Elem) {
-		ck := ss.heapKey(s.container, false)
-		ch := heapOf(ck, ss.heapSort(s.container, false))
-		cs := ss.structSort(s.container)
-		field := sx(cs.Fields[s.field].Name, sx("select", ch, sx("div", neg, "64")))
-		term = ite(and(sx("<", p.Root, "0"), sx("=", sx("mod", neg, "64"), fmt.Sprint(s.id))), field, term)
+	sites := x.sitesFor(p.Elem)
+	hs := ss.heapSort(p.Elem, false)
+	h := heapOf(p.Heap, hs)
+	if len(sites) == 0 {
+		return sx("select", h, p.Root)
 	}
-	return term
+	name := "deref_" + sanitize(ss.heapKey(p.Elem, false))
+	args := []string{h}
+	x.P.mu.Lock()
+	_, have := x.P.derefDefs[name]
+	x.P.mu.Unlock()
+	var params []string
+	body := "(select h0 p)"
+	params = append(params, fmt.Sprintf("(h0 %s)", hs))
+	for i, s := range sites {
+		ck := ss.heapKey(s.container, false)
+		csort := ss.heapSort(s.container, false)
+		args = append(args, heapOf(ck, csort))
+		if !have {
+			cs := ss.structSort(s.container)
+			hn := fmt.Sprintf("h%d", i+1)
+			params = append(params, fmt.Sprintf("(%s %s)", hn, csort))
+			field := sx(cs.Fields[s.field].Name, sx("select", hn, "(div (- 0 p) 64)"))
+			body = ite(and("(< p 0)", sx("=", "(mod (- 0 p) 64)", fmt.Sprint(s.id))), field, body)
+		}
+	}
+	if !have {
+		sorts, names := []string{hs}, []string{"h0"}
+		for i, s := range sites {
+			names = append(names, fmt.Sprintf("h%d", i+1))
+			sorts = append(sorts, ss.heapSort(s.container, false))
+		}
+		app := "(" + name + " " + strings.Join(names, " ") + " p)"
+		def := fmt.Sprintf("(declare-fun %s (%s Int) %s)\n(assert (forall (%s (p Int)) (! (= %s %s) :pattern (%s))))\n",
+			name, strings.Join(sorts, " "), ss.sortOf(p.Elem), strings.Join(params, " "), app, body, app)
+		x.P.mu.Lock()
+		if x.P.derefDefs == nil {
+			x.P.derefDefs = map[string]string{}
+		}
+		x.P.derefDefs[name] = def
+		x.P.mu.Unlock()
+	}
+	args = append(args, p.Root)
+	return sx(name, args...)
 }
 
 // pathType returns the type reached by following path from t.
